@@ -235,6 +235,30 @@ def fold_constant_conditions(t: "T") -> "T":
     return T(t.op, t.name, [fold_constant_conditions(a) for a in t.args], {k: fold_constant_conditions(v) for k, v in t.kw.items()}, t.node)
 
 
+def beta_reduce(t: "T") -> "T":
+    """(lambda a, b: E)(x, y) == E[a := x, b := y]  (positional parameters without defaults; terms are pure)."""
+    if not t.args and not t.kw:
+        return t
+    args = [beta_reduce(a) for a in t.args]
+    kw = {k: beta_reduce(v) for k, v in t.kw.items()}
+    if t.op == "callv" and args and args[0].op == "lambda" and isinstance(args[0].node, ast.Lambda) and not kw:
+        la = args[0].node.args
+        if not (la.vararg or la.kwarg or la.kwonlyargs or la.defaults) and len(la.posonlyargs + la.args) == len(args) - 1 and \
+                not any(a.op == "star" for a in args[1:]):
+            m = {"λ" + p_.arg: v for p_, v in zip(la.posonlyargs + la.args, args[1:])}
+
+            def sub(x):
+                if x.op == "param" and x.name in m:
+                    return m[x.name]
+                if x.op == "lambda":
+                    return x  # an inner lambda may rebind the name: leave it alone
+                if not x.args and not x.kw:
+                    return x
+                return T(x.op, x.name, [sub(a) for a in x.args], {k: sub(v) for k, v in x.kw.items()}, x.node)
+            return beta_reduce(sub(args[0].args[0]))
+    return T(t.op, t.name, args, kw, t.node)
+
+
 def normalise_tests(t: "T") -> "T":
     """`x in [a, b]` == `x == a or x == b`;  `x not in (a, b)` == `x != a and x != b`;  the operands of and/or are
     ordered (terms are pure, so evaluation order does not matter) and duplicates dropped."""
@@ -270,7 +294,7 @@ def canon(t: "T", max_conds: int = 6) -> "T":
     `x if c else y` == `y if not c else x`, and nested tests on the same condition collapse.  Expressions are pure
     (terms carry no effects), so the rewriting preserves the value.  Terms with more than `max_conds` distinct
     conditions are returned unchanged."""
-    t = normalise_tests(fold_constant_conditions(fuse_comprehensions(t)))
+    t = normalise_tests(fold_constant_conditions(fuse_comprehensions(beta_reduce(t))))
     conds = {}
     for x in t.walk():
         if x.op == "ifexp":
